@@ -21,7 +21,9 @@ RULE = ("Registries of 0..6 services (5 type spellings incl. a subtype and an up
         "the replies off the simulated wire. Oracle: ResponderModel (vlib/models.py). Plus 'update races': a QM query 1..900 ms "
         "before async_update_service / async_unregister_service (answer still queued for aggregation or the one-second "
         "protection when the registry changes): nothing that leaves the host after the change may carry the replaced SRV/TXT "
-        "with a positive TTL. Updates re-submit either a fresh ServiceInfo or the registered object changed in place (TTLs, port, "
+        "with a positive TTL. A few real-time histories go through the blocking API of a Zeroconf() with its own loop thread "
+        "(register/update/unregister_service from a non-loop thread; updates by a fresh object with new data, by a fresh object "
+        "that differs in the TTLs only, or in place). Updates re-submit either a fresh ServiceInfo or the registered object changed in place (TTLs, port, "
         "weight, priority, optionally the addresses); names include capitals, non-ASCII and casefold-special letters. Distinct = (question type, name relation, "
         "known-answer boundary, registry-op history class, path) tuples.")
 ASSUMPTIONS = ["NSEC owner name is compared per service (the library names it after the instance)",
@@ -32,7 +34,7 @@ QTYPES = [12, 1, 28, 33, 16, 255, 47, 99]
 def floors(tier):
     q = tier == "quick"
     return {"c03.answers": 200000 if q else 15000000, "c03.additionals": 30000 if q else 2000000, "c03.wire": 1500 if q else 150000,
-            "c03.wire.update_race": 2000 if q else 250000}
+            "c03.wire.update_race": 2000 if q else 250000, "c03.blocking": 5 if q else 30}
 
 
 def plan(tier, seed):
@@ -57,9 +59,10 @@ class Run:
         self.gone_names: List[str] = []
         self.ops: List[Any] = []
         self.last_op = "init"
+        self.blocking = False
 
     def viol(self, monitor: str, kind: str, detail: str, **sig: Any) -> None:
-        self.res.violation(monitor, kind, detail, dict(sig), {"seed": self.seed, "ops": self.ops[-14:], "query": sig.get("_q")})
+        self.res.violation(monitor, kind, detail, dict(sig), {"seed": self.seed, "ops": self.ops[-14:], "query": sig.get("_q"), "blocking": self.blocking})
 
     # -- registry operations ------------------------------------------------------------
     async def op(self, sim: simnet.Sim, zc: Any) -> None:
@@ -427,6 +430,70 @@ def run_update_race(res: Result, seed: int) -> None:
     res.cls("update_race", api, change, qkind, "gap=%d" % gap, "delta=%d" % delta)
 
 
+def run_blocking(res: Result, seed: int) -> None:
+    """The same registry operations through the blocking API of a Zeroconf() with its own loop thread (real time, fake sockets):
+    register_service / update_service (fresh object with changed data, fresh object that differs in the TTLs only, the registered
+    object changed in place) / unregister_service, called from a non-loop thread; after each the registry state is queried in the
+    loop thread and judged by the same model."""
+    from ..threadrun import BlockingInstance
+    rng = random.Random(seed)
+    run = Run(res, rng, seed)
+    run.blocking = True
+    res.evaluations += 1
+    try:
+        with BlockingInstance() as bi:
+            zc = bi.zc
+            svcs = []
+            for i in range(rng.choice([1, 2])):
+                s = R.gen_service(rng, min_ttl=10)
+                if any(x.key() == s.key() for x in svcs):
+                    continue
+                svcs.append(s)
+                info = R.make_info(s)
+                zc.register_service(info, cooperating_responders=True, strict=False)
+                run.model.register(s)
+                run.infos[s.key()] = info
+                run.ops.append(["blocking-register", s.brief()])
+                run.last_op = "blocking-register"
+                bi.in_loop(run.sweep_state, zc, bi.now_ms())
+            for _ in range(rng.choice([2, 3])):
+                old = rng.choice(list(run.model.services.values()))
+                how = rng.choice(["ttl-only", "ttl-only", "data", "inplace"])
+                s = R.gen_service(rng, name=old.name, type_=old.type, min_ttl=10)
+                s.server = old.server
+                if how == "ttl-only":
+                    # a fresh object that differs from the registered one in nothing but the TTLs
+                    s.port, s.text, s.priority, s.weight, s.addrs4, s.addrs6 = old.port, old.text, old.priority, old.weight, list(old.addrs4), list(old.addrs6)
+                    s.host_ttl = rng.choice([t for t in (10, 30, 60, 121, 10000) if t != old.host_ttl])
+                    s.other_ttl = rng.choice([t for t in (10, 100, 4501, 10000) if t != old.other_ttl])
+                if how == "inplace":
+                    info = run.infos[old.key()]
+                    s.text, s.addrs4, s.addrs6 = old.text, list(old.addrs4), list(old.addrs6)
+                    info.host_ttl, info.other_ttl, info.port, info.weight, info.priority = s.host_ttl, s.other_ttl, s.port, s.weight, s.priority
+                else:
+                    info = R.make_info(s)
+                zc.update_service(info)
+                run.model.register(s)
+                run.infos[s.key()] = info
+                run.ops.append(["blocking-update-" + how, s.brief()])
+                run.last_op = "blocking-update-" + how
+                res.mon("c03.blocking")
+                bi.in_loop(run.sweep_state, zc, bi.now_ms())
+            key = rng.choice(list(run.model.services))
+            zc.unregister_service(run.infos.pop(key))
+            gone = run.model.services[key]
+            run.gone_names.extend([gone.name, gone.server, gone.type])
+            run.model.unregister(key)
+            run.ops.append(["blocking-unregister", key])
+            run.last_op = "blocking-unregister"
+            bi.in_loop(run.sweep_state, zc, bi.now_ms())
+            bad = [e for e in bi.net.escapes if "was destroyed but it is pending" not in str(e.get("message"))]
+            if bad:
+                res.violation("c03.answers", "loop_exception", repr(bad[0])[:800], {}, {"seed": seed, "blocking": True, "ops": run.ops})
+    except Exception as e:
+        res.violation("c03.answers", "exception", "exception during blocking-API history: %r\n%s" % (e, tb()), {"exc_type": type(e).__name__}, {"seed": seed, "blocking": True, "ops": run.ops})
+
+
 def run_shard(spec):
     res = Result()
     rng = rng_for("c03", spec["seed"], spec["shard"])
@@ -436,11 +503,16 @@ def run_shard(spec):
         res.extra["histories"] = res.extra.get("histories", 0) + 1
         for _k in range(4):
             run_update_race(res, rng.randrange(1 << 30))
+    if spec["shard"] in ((3, 4, 5) if spec["tier"] == "quick" else range(3, 19)):
+        run_blocking(res, rng.randrange(1 << 30))
     return res
 
 
 def replay(blob):
     res = Result()
+    if blob.get("blocking"):
+        run_blocking(res, blob["seed"])
+        return res
     if blob.get("update_race"):
         run_update_race(res, blob["seed"])
         return res
